@@ -1,127 +1,91 @@
-import BridgeVerif.Translated.HandParsersD
-import BridgeVerif.Translated.ThreadsClientA
-import BridgeVerif.Props.C19
+import BridgeVerif.Translated.ThreadsClientE
+import BridgeVerif.Lemmas.RegexMsgClientB
 /-!
-# The `dealParses` obligation of the bundled-client capstone, discharged for EVERY hand
+# `parse_team_names` / `parse_leader_message` translated = model on EVERY text; `connectParses` holds outright
 
-`dealParses` (Translated/ThreadsClientA.lean) asks, about the hand message `_deal` receives, that the TRANSLATED
-`Client.parse_cards` / `Client.parse_hand` return what the model's `parseCards?` / `parseHand?` return.  With
-Translated/HandParsers*.lean (translated = model on every text of the classes `agreeCards` / `agreeHand`) and the model
-round trip of Lemmas/MsgHand.lean (`C19.hand_msg_round_trip`), this holds for the message `cardsMsg name hand` of EVERY hand
-`HandOK hand` (no card twice, every card on the deck; any number of cards) and every name the client passes — no kernel
-evaluation of instances:
+With `Lemmas/RegexMsgClientB.lean` (the engine's Unicode case folding and the scanner's `eqCI` agree on every character
+against the ASCII letters of the patterns) the class hypotheses of `Translated/ClientParsers{B,D}.lean` and
+`Translated/ThreadsClientE.lean` disappear:
 
-* `hand_message_translated` : `parse_cards(cardsMsg name hand, name)` returns `handToStr hand`; `parse_hand` of that returns
-  `(encCards l, hand_list)` with `l` = what the model's `parseHand?` reads = the hand sorted by suit and rank (`l.Perm hand`);
-* `dealParses_of_hand` : hence `dealParses N p ⟨header :: cardsMsg p.formal hand :: …⟩ (encCards l) hb` for every `N ≥ 18`,
-  given only the `parse_board` half (Translated/MsgParsers… / kernel evaluation for the header).
+* `parse_team_names_all`, `parse_leader_message_all` : for EVERY text, at every fuel ≥ 31, the translated method returns
+  the encoding of the model's result, or raises where the model has `none`;
+* `connectParses_all` : the hypothesis `connectParses 31 i` of the bundled-client capstone holds for EVERY input `i`;
+* `playParses_leader_all` : the field `leader` of `PlayParses 31 i` holds for EVERY input `i`;
+* `parse_board_nodigit`, `dealParses_board_nodigit` : the same for `parse_board` on every header without a non-ASCII
+  decimal digit (`\d` is Unicode-aware in `re`, the model's scanner reads ASCII digits: `"Board number ١٨. …"` is read by
+  the translated code and refused by the model — outside the class).
 -/
-set_option maxRecDepth 4000
-namespace Bridge.Translated.ClientF
-open Bridge Bridge.Py Bridge.Generated.PyCore Bridge.Translated Bridge.RegexMsgHand
-open Bridge.Translated.HandParsers Bridge.Translated.ClientA Bridge.Translated.HandsPbn
+namespace Bridge.Translated.ClientE
+open Bridge Bridge.Py Bridge.Generated.PyCore Bridge.Translated Bridge.Translated.ClientA Bridge.Translated.ClientB
+open Bridge.Translated.ClientParsers Bridge.RegexMsgClient
 
-/-! ## the characters of a hand message -/
-def msgChars : List Char := fieldChars ++ "SHDC. ".toList
+/-- `Client.parse_team_names` translated, on EVERY text, at every fuel ≥ 31 -/
+theorem parse_team_names_all (s : Str) (g : Nat) (hg : 31 ≤ g) :
+    callFn P g m_Client_parse_team_names [.str s] =
+      match parseTeamNames? s with
+      | none => .error (.exc K.Exception)
+      | some (ns, ew) => .ok (.tuple [.str ns, .str ew], .str s) :=
+  parse_team_names_translated s (fun x _ => agreeTeams_all x) g hg
 
-theorem handToStr_chars (hand : List Card) : ∀ x ∈ handToStr hand, x ∈ msgChars := by
-  intro x hx
-  unfold handToStr at hx
-  simp only [List.mem_append, List.mem_singleton] at hx
-  have hf : ∀ su, x ∈ suitField hand su → x ∈ msgChars :=
-    fun su h => List.mem_append_left _ (suitField_chars hand su x h)
-  rcases hx with (((((((hx | hx) | hx) | hx) | hx) | hx) | hx) | hx) | rfl
-  · clear hf; revert x; decide
-  · exact hf _ hx
-  · clear hf; revert x; decide
-  · exact hf _ hx
-  · clear hf; revert x; decide
-  · exact hf _ hx
-  · clear hf; revert x; decide
-  · exact hf _ hx
-  · decide
+/-- `Client.parse_leader_message` translated, on EVERY text, at every fuel ≥ 31 -/
+theorem parse_leader_message_all (s : Str) (dummy : Seat) (g : Nat) (hg : 31 ≤ g) :
+    callFn P g m_Client_parse_leader_message [.str s, encSeat dummy] = leaderResult s dummy :=
+  parse_leader_message_translated s (fun x _ => agreeLead_all x) dummy g hg
 
-theorem msgChars_agree : ∀ x ∈ msgChars, agreeCards x = true ∧ agreeHand x = true := by decide +kernel
-theorem nameChars_agree : ∀ name ∈ cardNames, ∀ x ∈ name ++ "'s cards : ".toList, agreeCards x = true := by
-  decide +kernel
+/-- … in terms of the model: success -/
+theorem parse_leader_message_all_ok (s : Str) (dummy l : Seat) (h : parseLeader? s dummy = some l) (g : Nat)
+    (hg : 31 ≤ g) : callFn P g m_Client_parse_leader_message [.str s, encSeat dummy] = .ok (encSeat l, .str s) :=
+  parse_leader_message_ok s (fun x _ => agreeLead_all x) dummy l h g hg
 
-theorem cardsMsg_agree (name : List Char) (hn : name ∈ cardNames) (hand : List Card) :
-    ∀ x ∈ cardsMsg name hand, agreeCards x = true := by
-  intro x hx
-  unfold cardsMsg at hx
-  rw [List.mem_append] at hx
-  rcases hx with hx | hx
-  · exact nameChars_agree name hn x hx
-  · exact (msgChars_agree x (handToStr_chars hand x hx)).1
+/-- … failure: `Exception` (no match) or `ValueError` (unknown name) -/
+theorem parse_leader_message_all_raises (s : Str) (dummy : Seat) (h : parseLeader? s dummy = none) (g : Nat)
+    (hg : 31 ≤ g) :
+    callFn P g m_Client_parse_leader_message [.str s, encSeat dummy] = .error (.exc K.Exception) ∨
+    callFn P g m_Client_parse_leader_message [.str s, encSeat dummy] = .error (.exc K.ValueError) := by
+  rcases parse_leader_message_raises s (fun x _ => agreeLead_all x) dummy h g hg with ⟨_, h⟩ | ⟨_, h⟩
+  · exact .inl h
+  · exact .inr h
 
-/-! ## the raw cards of `handToStr hand` -/
-/-- the hand as `handToStr` words it: by suit (S, H, D, C), ranks descending -/
-def wording (hand : List Card) : List Card :=
-  ((suitField.sortDescI hand).filter fun c => decide (c.suit = .S)) ++
-  ((suitField.sortDescI hand).filter fun c => decide (c.suit = .H)) ++
-  ((suitField.sortDescI hand).filter fun c => decide (c.suit = .D)) ++
-  ((suitField.sortDescI hand).filter fun c => decide (c.suit = .C))
+/-- `Client.parse_board` translated, on every header without a non-ASCII decimal digit, at every fuel ≥ 31 -/
+theorem parse_board_nodigit (s : Str) (hs : ∀ x ∈ s, x.toNat < 128 ∨ Re.isDigit x = false) (g : Nat) (hg : 31 ≤ g) :
+    callFn P g m_Client_parse_board [.str s] = boardResult s :=
+  parse_board_translated s (fun x hx => by
+    rcases hs x hx with h | h
+    · exact agreeBoard_ascii x h
+    · exact agreeBoard_of_not_digit x h) g hg
 
-theorem handGroups_eq_K (content : List Char) :
-    handGroups? content = match stripPrefixCI "S ".toList content with
-      | none => none
-      | some r0 => dotStar r0 handK1 := rfl
+/-- THE HYPOTHESIS `connectParses` OF THE BUNDLED-CLIENT CAPSTONE HOLDS FOR EVERY INPUT -/
+theorem connectParses_all (i : ClientIn) : connectParses 31 i :=
+  connectParses_of_agree i fun _ _ _ _ x _ => agreeTeams_all x
 
-theorem wording_perm (hand : List Card) (hok : HandOK hand) : (wording hand).Perm hand ∧ (wording hand).Nodup := by
-  obtain ⟨hn, hc⟩ := hok
-  have hsort := sortDescI_perm hand
-  have hmem : ∀ c ∈ suitField.sortDescI hand, c ∈ hand := fun c h => hsort.mem_iff.1 h
-  have hperm := (msg_suit_partition (suitField.sortDescI hand) (fun c h => hc c (hmem c h))).trans hsort
-  have hp : (wording hand).Perm hand := by simpa only [wording, List.append_assoc] using hperm
-  exact ⟨hp, hp.nodup_iff.2 hn⟩
+/-- … at any larger fuel bound as well -/
+theorem connectParses_all' (N : Nat) (hN : 31 ≤ N) (i : ClientIn) : connectParses N i := by
+  have h := connectParses_all i
+  unfold connectParses at h ⊢
+  split
+  · rename_i reply teams rest heq
+    rw [heq] at h
+    exact fun ns ew hp => Returns.mono (h ns ew hp) hN
+  · trivial
 
-theorem rawCards_handToStr (hand : List Card) (hok : HandOK hand) :
-    rawCards? (handToStr hand) = some (wording hand) := by
-  obtain ⟨hn, hc⟩ := hok
-  have hsort := sortDescI_perm hand
-  have hmem : ∀ c ∈ suitField.sortDescI hand, c ∈ hand := fun c h => hsort.mem_iff.1 h
-  have hg := hand_groups _ _ _ _ (suitField_chars hand .S) (suitField_chars hand .H)
-    (suitField_chars hand .D) (suitField_chars hand .C)
-  unfold rawCards?
-  rw [handGroups_eq_K]
-  unfold handToStr
-  simp only [List.append_assoc, strip_self, hg, cardsOfGroup_suitField hand hc _ hmem, wording]
+/-- the field `leader` of `PlayParses` holds for every input -/
+theorem playParses_leader_all (i : ClientIn) :
+    ∀ m ∈ i.s, ∀ (d l : Seat), parseLeader? m d = some l →
+      Returns 31 m_Client_parse_leader_message [.str m, encSeat d] (encSeat l) :=
+  playParses_leader i fun _ _ x _ => agreeLead_all x
 
-/-! ## the hand message through the translated parsers -/
-/-- for EVERY hand and each of the five names: the translated `parse_cards` reads `handToStr hand` out of the message,
-the translated `parse_hand` reads out of that the set of the hand's cards — literally the encoding of what the model's
-`parseHand?` returns (`wording hand`, a permutation of the hand) — at every fuel ≥ 18 -/
-theorem hand_message_translated (name : List Char) (hn : name ∈ cardNames) (hand : List Card) (hok : HandOK hand) :
-    parseCards? (cardsMsg name hand) name = some (handToStr hand) ∧
-    parseHand? (handToStr hand) = some (wording hand) ∧ (wording hand).Perm hand ∧
-    (∀ f, 18 ≤ f → callFn P f m_Client_parse_cards [.str (cardsMsg name hand), .str name]
-      = .ok (.str (handToStr hand), .str (cardsMsg name hand))) ∧
-    (∀ f, 18 ≤ f → callFn P f m_Client_parse_hand [.str (handToStr hand)]
-      = .ok (.tuple [encCards (wording hand), .tuple (setBits (wording hand) zeros52)], .str (handToStr hand))) := by
-  have h1 := parseCards_ok name hand
-  obtain ⟨hperm, hnd⟩ := wording_perm hand hok
-  have h2 := parse_hand_translated_nodup (handToStr hand)
-    (fun x hx => (msgChars_agree x (handToStr_chars hand x hx)).2) (wording hand) (rawCards_handToStr hand hok) hnd
-  refine ⟨h1, h2.1, hperm, fun f hf => ?_, h2.2⟩
-  have := parse_cards_translated name hn (cardsMsg name hand) (cardsMsg_agree name hn hand) f (by omega)
-  rw [h1] at this
-  exact this
+/-- the first conjunct of `dealParses` on every header without a non-ASCII decimal digit -/
+theorem dealParses_board_nodigit (header : Text) (h : ∀ x ∈ header, x.toNat < 128 ∨ Re.isDigit x = false) :
+    ∀ k dealer vul, parseBoard? header = some (k, dealer, vul) →
+      Returns 31 m_Client_parse_board [.str header] (.tuple [.int k, encSeat dealer, encVul vul]) :=
+  dealParses_board header fun x hx => by
+    rcases h x hx with h | h
+    · exact agreeBoard_ascii x h
+    · exact agreeBoard_of_not_digit x h
 
-/-- the `dealParses` obligation for an arbitrary deal: whatever the header, the hand-message half holds for every hand;
-`hs` is the encoding of the hand the model's client reads (`wording hand`) -/
-theorem dealParses_of_hand (N : Nat) (hN : 18 ≤ N) (p : Seat) (header : List Char) (hand : List Card) (hok : HandOK hand)
-    (rest : List (List Char)) (calls : List Call) (cards : List Card)
-    (hboard : ∀ k dealer vul, parseBoard? header = some (k, dealer, vul) →
-      Returns N m_Client_parse_board [.str header] (.tuple [.int k, encSeat dealer, encVul vul])) :
-    dealParses N p ⟨header :: cardsMsg p.formal hand :: rest, calls, cards⟩ (encCards (wording hand))
-      (.tuple (setBits (wording hand) zeros52)) := by
-  obtain ⟨h1, _, _, h4, h5⟩ := hand_message_translated p.formal (formal_mem_cardNames p) hand hok
-  unfold dealParses
-  refine ⟨hboard, fun t ht => ?_⟩
-  rw [h1] at ht
-  cases ht
-  refine ⟨fun f hf => ?_, fun _ f hf => ?_⟩
-  · rw [h4 f (by omega)]; rfl
-  · rw [h5 f (by omega)]; rfl
+/-- the `Teams` message built from ANY two names without a double quote / line break -/
+theorem teams_message_returns_all (ns ew : Text) (n1 : NameOK ns) (n2 : NameOK ew) :
+    Returns 31 m_Client_parse_team_names [.str (teamsMsg ns ew)] (.tuple [.str ns, .str ew]) :=
+  teams_message_returns ns ew n1 n2 (fun x _ => agreeTeams_all x) (fun x _ => agreeTeams_all x)
 
-end Bridge.Translated.ClientF
+end Bridge.Translated.ClientE
